@@ -204,6 +204,8 @@ def check(tier: str) -> Result:
     for n in ast.walk(av.node):
         if isinstance(n, ast.If) and isinstance(n.test, ast.Compare) and len(n.test.ops) == 1:
             l, r = n.test.left, n.test.comparators[0]
+            if self_attr(l) and not self_attr(r):
+                l, r = r, l
             la = l.attr if isinstance(l, ast.Attribute) else None
             ra = self_attr(r)
             fails = any(isinstance(x, ast.Call) and self_attr(x.func) == "_fail_validation" for st in n.body for x in ast.walk(st)) or \
@@ -227,8 +229,15 @@ def check(tier: str) -> Result:
             for c in ast.walk(n.test):
                 if isinstance(c, ast.Compare) and len(c.ops) == 1:
                     b = self_attr(c.comparators[0])
-                    if b in ("minimum", "maximum") and isinstance(c.left, ast.Name):
-                        found[b] = (type(c.ops[0]).__name__, is_any_reduced(n.test, c))
+                    opn = type(c.ops[0]).__name__
+                    other = c.left
+                    if b not in ("minimum", "maximum"):
+                        # bound written on the left: normalise to `value OP bound`
+                        b = self_attr(c.left)
+                        other = c.comparators[0]
+                        opn = {"Lt": "Gt", "Gt": "Lt", "LtE": "GtE", "GtE": "LtE"}.get(opn, opn)
+                    if b in ("minimum", "maximum") and isinstance(other, ast.Name):
+                        found[b] = (opn, is_any_reduced(n.test, c))
     fails = cond is not None and (any(isinstance(x, ast.Call) and self_attr(x.func) == "_fail_validation" for st in cond.body for x in ast.walk(st))
                                   or any(isinstance(st, ast.Raise) for st in cond.body))
     is_or = cond is not None and isinstance(cond.test, ast.BoolOp) and isinstance(cond.test.ops if False else cond.test.op, ast.Or)
